@@ -99,6 +99,7 @@ template <class Gr> static void dumpUndObs(std::ostream &o, const Gr &g) {
 // ---------------------------------------------------------------- file routines (writers)
 template <class L, class Gr> static typename std::enable_if<TextCodec<L>::ok, bool>::type writeTextVerb(const Gr &g, std::string &out) {
     std::string path = scratchPath();
+    spit(path, "stale bytes of an earlier, longer file\n0 1 2 3 4 5 6 7 8 9\n"); // writers must replace, not extend
     std::string r = guard([&] {
         io::writeTextEdgeList(g, path, std::function<std::string(const L &)>([](const L &l) { return TextCodec<L>::to(l); }));
         return std::string("ok");
@@ -110,6 +111,7 @@ template <class L, class Gr> static typename std::enable_if<TextCodec<L>::ok, bo
 }
 template <class L, class Gr> static typename std::enable_if<std::is_same<L, NoLabel>::value, bool>::type writeTextVerb(const Gr &g, std::string &out) {
     std::string path = scratchPath();
+    spit(path, "stale bytes of an earlier, longer file\n0 1 2 3 4 5 6 7 8 9\n"); // writers must replace, not extend
     std::string r = guard([&] { io::writeTextEdgeList(g, path); return std::string("ok"); });
     out = "R " + r + "\n";
     if (r == "ok") out += "F " + toHex(slurp(path)) + "\n";
@@ -121,6 +123,7 @@ template <class L, class Gr> static typename std::enable_if<!TextCodec<L>::ok &&
 template <class L> struct BinOk { static const bool ok = std::is_arithmetic<L>::value; };
 template <class L, class Gr> static typename std::enable_if<BinOk<L>::ok || std::is_same<L, NoLabel>::value, bool>::type writeBinVerb(const Gr &g, std::string &out) {
     std::string path = scratchPath();
+    spit(path, "stale bytes of an earlier, longer file\n0 1 2 3 4 5 6 7 8 9\n"); // writers must replace, not extend
     std::string r = guard([&] { io::writeBinaryEdgeList(g, path); return std::string("ok"); });
     out = "R " + r + "\n";
     if (r == "ok") out += "F " + toHex(slurp(path)) + "\n";
